@@ -160,38 +160,44 @@ def takeDigits : Bytes → Bytes × Bytes
   | [] => ([], [])
   | b :: rest => if isDigit b then let (d, r) := takeDigits rest; (b :: d, r) else ([], b :: rest)
 
+def numSign : Bytes → Bytes × Bytes
+  | 45 :: r => ([45], r)
+  | bs => ([], bs)
+
+def numInt : Bytes → Option (Bytes × Bytes)
+  | [] => none
+  | b :: r =>
+    if b = 48 then some ([48], r)
+    else if 49 ≤ b && b ≤ 57 then some (takeDigits (b :: r)) else none
+
+def numFrac : Bytes → Option (Bytes × Bytes)
+  | 46 :: r =>
+    if (takeDigits r).1.isEmpty then none else some (46 :: (takeDigits r).1, (takeDigits r).2)
+  | bs => some ([], bs)
+
+def numExpSign : Bytes → Bytes × Bytes
+  | 43 :: x => ([43], x)
+  | 45 :: x => ([45], x)
+  | r => ([], r)
+
+def numExp : Bytes → Option (Bytes × Bytes)
+  | [] => some ([], [])
+  | e :: r =>
+    if e = 101 || e = 69 then
+      if (takeDigits (numExpSign r).2).1.isEmpty then none
+      else some (e :: (numExpSign r).1 ++ (takeDigits (numExpSign r).2).1, (takeDigits (numExpSign r).2).2)
+    else some ([], e :: r)
+
 /-- JSON number literal at the head of the input: `-?(0|[1-9][0-9]*)(\.[0-9]+)?([eE][+-]?[0-9]+)?` -/
 def parseNumber (bs : Bytes) : Option (Bytes × Bytes) :=
-  let (sign, r0) : Bytes × Bytes := match bs with
-    | 45 :: r => ([45], r)
-    | _ => ([], bs)
-  let intPart : Option (Bytes × Bytes) := match r0 with
-    | 48 :: r => some ([48], r)
-    | b :: _ => if 49 ≤ b && b ≤ 57 then some (takeDigits r0) else none
-    | [] => none
-  match intPart with
+  let (sign, r0) := numSign bs
+  match numInt r0 with
   | none => none
   | some (ip, r1) =>
-    let frac : Option (Bytes × Bytes) := match r1 with
-      | 46 :: r =>
-        let (d, r') := takeDigits r
-        if d.isEmpty then none else some (46 :: d, r')
-      | _ => some ([], r1)
-    match frac with
+    match numFrac r1 with
     | none => none
     | some (fp, r2) =>
-      let exp : Option (Bytes × Bytes) := match r2 with
-        | e :: r =>
-          if e = 101 || e = 69 then
-            let (sg, r') : Bytes × Bytes := match r with
-              | 43 :: x => ([43], x)
-              | 45 :: x => ([45], x)
-              | _ => ([], r)
-            let (d, r'') := takeDigits r'
-            if d.isEmpty then none else some (e :: sg ++ d, r'')
-          else some ([], r2)
-        | [] => some ([], r2)
-      match exp with
+      match numExp r2 with
       | none => none
       | some (ep, r3) => some (sign ++ ip ++ fp ++ ep, r3)
 
